@@ -44,11 +44,15 @@ class ipaddress(FieldType):
             return defang(str(self))
         return str.__format__(str(self), spec)
 
-    def _pack(self) -> int:
+    def _pack(self) -> int | str:
+        # The integer value of an IPv6 address below 2**32 is indistinguishable from an IPv4 address
+        # when unpacking, so pack those as text to preserve the address family.
+        if self.val.version == 6 and int(self.val) <= 0xFFFFFFFF:
+            return self.val.compressed
         return int(self.val)
 
     @staticmethod
-    def _unpack(data: int) -> ipaddress:
+    def _unpack(data: int | str) -> ipaddress:
         return ipaddress(data)
 
 
